@@ -1270,13 +1270,13 @@ func runHistories(rng *vf.RNG, workers int) {
 		copy(kh[:], ethcrypto.Keccak256(rl))
 		eips = append(eips, eipSample{raw, kh})
 	}
-	n := vf.N(5000, 100000)
+	n := vf.N(5000, 50000)
 	vf.Parallel(n, workers, func(i int) { historyCase(i, rng.Sub(uint64(i)), eips) })
 }
 
 // requireHistories: a run in which a class of step or of report did not occur is inconclusive.
 func requireHistories() {
-	n := int64(vf.N(5000, 100000))
+	n := int64(vf.N(5000, 50000))
 	r.Require("hist_histories", n)
 	for _, s := range []string{"transfer", "invoke-neo", "invoke-wasm", "deploy-neo0", "deploy-neo1", "deploy-wasm", "decoded"} {
 		r.Require("hist_start_"+s, n/10)
